@@ -13,6 +13,9 @@ CLAIMED = {
  "C06": dict(cat="model_checking", engine="tlc+replay", technique="TLC model checking of the iterator life cycle in CifStore.tla + replay of all call sequences into the library",
      text="All sequences of next / update / remove / close / abort (and the surrounding ordinary calls) up to the stated depth on a 2-item x 3-packet loop, a 1-packet loop and the scalar loop are enumerated by TLC; each is replayed and delivered packets, result codes, the content seen by SQL during the iteration and the content after close/abort are compared with the specification.",
      note="Loops of <= 3 packets; delivery order is compared with the row order the implementation uses (drift if it differs but stays a permutation).", ref="4 C06"),
+ "C14": dict(cat="model_checking", engine="tlc+replay", technique="TLC enumeration of all handler programs in CifWalk.tla (traversal properties checked on each) + replay of every program through cif_walk + TLC acceptor for differing logs",
+     text="CifWalk.tla mirrors cif_walk / walk_container / walk_loops / walk_loop / walk_packet one to one over a constant CIF tree with a scripted handler. TLC enumerates every handler program (continue, skip-current, skip-siblings, end, error codes 10 and 1 at every callback) on nine small shapes and checks AtMostOnce, ContinueVisitsAll, StopIsFinal, SkipSuppressesDescendants, SkipSiblingsSuppressesLater, NothingElseSuppressed on each; every program is then run through the real cif_walk with handle queries inside each callback and the callback log and return code compared; a differing log is re-validated by TLC in the module's acceptor mode, which leaves open exactly what the property leaves open.",
+     note="Shapes are bounded (<= 2 blocks, frames nested to depth 2, <= 2 loops, <= 3 packets, <= 2 items); sibling orders are learned from an all-continue walk of the same CIF.", ref="4 C14"),
  "C20": dict(cat="model_checking", engine="tlc-trace", technique="TLC evaluation of CifErrlist.tla on the table observed from the library (exhaustive over the codes of cif.h)",
      text="The result codes are read from cif.h at check time, the table is dumped from the library built from /repo, and TLC checks for every code: inside the table, non-empty, describes the condition (keyword alternatives), not shared with another code. Exhaustive over a finite set.",
      note="The keyword alternatives in CifErrlist.tla define what 'describes that very condition' means.", ref="4 C20"),
